@@ -70,10 +70,18 @@ varintWidth varintPFORComputeThreshold(const uint64_t *values, uint32_t count,
     }
     uint64_t thresholdValue = sorted[thresholdIndex];
 
+    /* The all-ones pattern of the chosen width is the exception marker, so it
+     * must never be the offset of a normal value: size the width for
+     * range + 1.  At the very top (offsets up to UINT64_MAX) no width can
+     * spare a pattern, so the largest value becomes an exception instead. */
+    if (thresholdValue - min == UINT64_MAX) {
+        thresholdValue--;
+    }
+
     /* Calculate range and required width */
     uint64_t range = thresholdValue - min;
     varintWidth width;
-    varintExternalUnsignedEncoding(range, width);
+    varintExternalUnsignedEncoding(range + 1, width);
 
     /* Calculate exception marker */
     uint64_t marker = varintPFORCalculateMarker(width);
